@@ -372,7 +372,8 @@ func ruleNUMPREFIX(c *Ctx) []Obligation {
 				}
 				if isIdentCall(a) && i+1 < len(list) {
 					if b := writeArg(list[i+1]); b != nil {
-						if s, ok := constStr(b); ok && s == " = " {
+						// " = " alone, or fused with what follows (" = alloca")
+						if s, ok := constStr(b); ok && strings.HasPrefix(s, " = ") {
 							return 2
 						}
 					}
@@ -442,6 +443,12 @@ func ruleNUMREDERIVE(c *Ctx) []Obligation {
 		o := Obligation{Key: key, Pos: c.pos(sc.call.Pos()), Verdict: OK}
 		var obj types.Object
 		isFieldCounter := false
+		if call, ok := unparen(sc.arg).(*ast.CallExpr); ok && len(call.Args) == 0 {
+			// SetID(nextID()): the ID is drawn from a generator closure directly
+			o.Detail = "ID drawn from " + exprString(call) + " (monotone counter that skips used IDs: MD-ASSIGN)"
+			obs = append(obs, o)
+			continue
+		}
 		switch a := unparen(sc.arg).(type) {
 		case *ast.Ident:
 			obj = info.ObjectOf(a)
